@@ -351,65 +351,91 @@ Definition tree_set (tr : tree notif) (p : path) (n : notif) : tree notif :=
 Definition lat_compute (t : target) (real : bool) (ts : Z) : target :=
   if t_sync t && real then set_lat t (ts :: t_lat t) else t.
 
+(** the part of gnmiUpdate before the leaf is looked at: [path[0]],
+    [path[1]] and the metadata side effects *)
+Definition is_real (p : path) : bool :=
+  match p with p0 :: _ => negb (String.eqb p0 md_root) | [] => true end.
+
+Definition update_pre (t : target) (p : path) (u : update) : target * outcome unit :=
+  match p with
+  | [] => (t, Panic panic_path0)
+  | p0 :: prest =>
+      if negb (String.eqb p0 md_root) then (t, Ok tt)
+      else match prest with
+           | [] => (t, Panic panic_path1)
+           | k :: _ => meta_side_effect t k u
+           end
+  end.
+
+(** the existing-leaf switch: what happens to a leaf holding [old] when [n]
+    arrives -- [None]: [n] is stored; [Some e]: rejected with error [e] *)
+Definition leaf_verdict (t : target) (now : Z) (old n : notif) : option N :=
+  if Z.ltb (n_ts n) (n_ts old) then Some err_stale
+  else if Z.eqb (n_ts n) (n_ts old) && notif_eqb old n then Some err_stale
+  else if negb (Z.eqb (n_ts n) (n_ts old)) && future_rejected t now (n_ts n) then Some err_future
+  else None.
+
+(** the rest of gnmiUpdate: update an existing leaf or add a new one *)
+Definition update_leaf (t1 : target) (now : Z) (p : path) (u : update) (n : notif)
+  : target * outcome (option notif) :=
+  let real := is_real p in
+  match CTreeModel.get (t_tree t1) p with
+  | Some (Branch _) => (t1, Err err_collision)
+  | Some (Leaf old) =>
+      match leaf_verdict t1 now old n with
+      | Some e =>
+          (add_int t1 (if N.eqb e err_stale then md_stale_count else md_future_count) 1, Err e)
+      | None =>
+          let t2 := set_tree t1 (tree_set (t_tree t1) p n) in
+          if n_atomic n then (lat_compute t2 real (n_ts n), Ok (Some n))
+          else
+            match n_upd old with
+            | [] => (t2, Panic panic_old_update)
+            | uo :: _ =>
+                (* DEFECT C03_2: with the patch the test is additionally
+                   guarded by [negb (n_atomic old)] *)
+                if (defect_c03_2_atomic_suppress || negb (n_atomic old))
+                   && value_equal (u_val uo) (u_val u)
+                   && cfg_event_driven (t_cfg t2)
+                then (add_int t2 md_suppressed_count 1, Ok None)
+                else (lat_compute t2 real (n_ts n), Ok (Some n))
+            end
+      end
+  | None =>
+      match CTreeModel.add (t_tree t1) p n with
+      | None => (t1, Err err_add)
+      | Some tr' =>
+          let t2 := set_tree t1 tr' in
+          let t3 := if real
+                    then lat_compute (add_int (add_int t2 md_leaf_count 1) md_add_count 1)
+                                     true (n_ts n)
+                    else t2 in
+          (t3, Ok (Some n))
+      end
+  end.
+
+(** index path of a notification that is stored as one unit: prefix + first
+    update's path, the prefix alone when atomic *)
+Definition unit_index (n : notif) : outcome path :=
+  match n_upd n with
+  | [] => Panic panic_no_update
+  | u :: _ => join_path (n_prefix n) (if n_atomic n then None else u_path u)
+  end.
+
 (** gnmiUpdate(n): result [Ok (Some n')]: the leaf handed to the client holds
     [n']; [Ok None]: stored but suppressed. *)
 Definition gnmi_update1 (t : target) (now : Z) (n : notif) : target * outcome (option notif) :=
   match n_upd n with
   | [] => (t, Panic panic_no_update)
   | u :: _ =>
-      let suffix := if n_atomic n then None else u_path u in
-      match join_path (n_prefix n) suffix with
+      match unit_index n with
       | Panic w => (t, Panic w)
       | Err e => (t, Err e)
-      | Ok [] => (t, Panic panic_path0)
-      | Ok ((p0 :: prest) as p) =>
-          let real := negb (String.eqb p0 md_root) in
-          let pre :=
-            if real then (t, Ok tt)
-            else match prest with
-                 | [] => (t, Panic panic_path1)
-                 | k :: _ => meta_side_effect t k u
-                 end in
-          match pre with
+      | Ok p =>
+          match update_pre t p u with
           | (t1, Panic w) => (t1, Panic w)
           | (t1, Err e) => (t1, Err e)
-          | (t1, Ok _) =>
-              match CTreeModel.get (t_tree t1) p with
-              | Some (Branch _) => (t1, Err err_collision)
-              | Some (Leaf old) =>
-                  if Z.ltb (n_ts n) (n_ts old) then
-                    (add_int t1 md_stale_count 1, Err err_stale)
-                  else if Z.eqb (n_ts n) (n_ts old) && notif_eqb old n then
-                    (add_int t1 md_stale_count 1, Err err_stale)
-                  else if negb (Z.eqb (n_ts n) (n_ts old)) && future_rejected t1 now (n_ts n) then
-                    (add_int t1 md_future_count 1, Err err_future)
-                  else
-                    let t2 := set_tree t1 (tree_set (t_tree t1) p n) in
-                    if n_atomic n then (lat_compute t2 real (n_ts n), Ok (Some n))
-                    else
-                      match n_upd old with
-                      | [] => (t2, Panic panic_old_update)
-                      | uo :: _ =>
-                          (* DEFECT C03_2: with the patch the test is additionally
-                             guarded by [negb (n_atomic old)] *)
-                          if (defect_c03_2_atomic_suppress || negb (n_atomic old))
-                             && value_equal (u_val uo) (u_val u)
-                             && cfg_event_driven (t_cfg t2)
-                          then (add_int t2 md_suppressed_count 1, Ok None)
-                          else (lat_compute t2 real (n_ts n), Ok (Some n))
-                      end
-              | None =>
-                  match CTreeModel.add (t_tree t1) p n with
-                  | None => (t1, Err err_add)
-                  | Some tr' =>
-                      let t2 := set_tree t1 tr' in
-                      let t3 := if real
-                                then lat_compute (add_int (add_int t2 md_leaf_count 1) md_add_count 1)
-                                                 true (n_ts n)
-                                else t2 in
-                      (t3, Ok (Some n))
-                  end
-              end
+          | (t1, Ok _) => update_leaf t1 now p u n
           end
       end
   end.
